@@ -185,7 +185,9 @@ func matrixFamily(r *core.Run, which string, forLocal bool) []string {
 				pos = true
 			}
 		}
-		if pos && (forLocal || which == "nonzero-open") {
+		// Local: C08 and C10 state "non-positive gap scores"; C09 ("any matrix whose gap-open score is
+		// zero") does not, and the pinned tree is optimal there, so the zero-open family keeps them.
+		if pos && ((forLocal && which != "zero-open") || which == "nonzero-open") {
 			return
 		}
 		out = append(out, name)
@@ -213,6 +215,9 @@ func matrixFamily(r *core.Run, which string, forLocal bool) []string {
 	}
 	// Global only: positive gap / gap-open scores
 	add("sym:1:-1:1:0")
+	add("sym:2:-3:2:0")
+	add("sym:5:-3:1:0")
+	add("sym:1:0:3:0")
 	add("sym:2:-1:-1:2")
 	add("sym:1:0:1:1")
 	for i := 0; i < 8; i++ {
